@@ -350,6 +350,9 @@ def mon_C07(walk, d):
                 c = conn_at(d, i)
                 if c is None or c.connack_step is None or c.connack_step > i or c.connack["rc"] != 0:
                     out.append(("connected-without-connack", "engine is Connected without a successful CONNACK on this connection", i))
+                elif "mps" not in c.connack["caps"] and "s.mps" in f and int(f["s.mps"]) < 268435460:
+                    # no Maximum Packet Size in the CONNACK: no limit beyond the protocol's own (1 + 4 + 268,435,455 bytes)
+                    out.append(("default-maximum-packet-size", f"the server announced no maximum packet size, the negotiated settings say {f['s.mps']} (the largest MQTT packet has 268435460 bytes)", i))
     return out
 
 
